@@ -2,6 +2,7 @@ package main
 
 import (
 	"fmt"
+	"math"
 )
 
 // genStorage is the shared storage workload: users buying plans and posting /
@@ -416,7 +417,8 @@ func (g *genStorage) postOp(rng *Rng, u, f int, payOnce bool) Op {
 	op := mkOp("post_file", u).withN("file", int64(f)).withN("max", mx)
 	if g.profile == "usage" || (g.profile == "mixed" && rng.Chance(1, 4)) {
 		// declared size (the chain cannot check it): from bytes to more than any plan
-		op = op.withN("size", rng.Pick64(1, 1000, 1_000_000, 400_000_000, 999_999_999, 1_000_000_000, 3_000_000_000, 40_000_000_000, 1_000_000_000_000, 60_000_000_000_000))
+		op = op.withN("size", rng.Pick64(1, 1000, 1_000_000, 400_000_000, 999_999_999, 1_000_000_000, 3_000_000_000, 40_000_000_000, 1_000_000_000_000, 60_000_000_000_000,
+			math.MaxInt64, math.MaxInt64/2+1, math.MaxInt64/3, math.MaxInt64-999_999_999))
 	}
 	if payOnce {
 		// expiry in blocks: around a day (14400 blocks) and longer
